@@ -1,5 +1,7 @@
 """Helpers of C16: where values of a guard type come into existence (struct literals lifted out of private constructor
-helpers) and what a `run_command` argument denotes (a removal command struct and the guard fields it names)."""
+helpers), what a `run_command` argument denotes (a removal command struct and the guard fields it names), the argv of a
+command conversion as interprocedural effects (argv_model), names as terms over the guard (guard_term / eval_term) and the
+number of random draws of a string built piecewise (pushed_draws)."""
 from .lib.paths import strip
 from .lib.value import walk
 
@@ -341,76 +343,516 @@ def guard_mutations(prog, fn, guard_types):
     return out
 
 
-def _const_str_blocks(fn, text):
-    """blocks of fn in which the string constant `text` occurs (statement operand or call argument)"""
-    from .lib.mir import op_const, const_value
-    out = []
+# ---- argv of a `From<X> for Command` conversion, read off interprocedural effects -------------------------------------
+# The argv is the ordered list of words handed to Command::arg / Command::args wherever that happens: in the conversion
+# itself, in a private helper / extension-trait method it calls (arguments substituted), in the `From<&X>` conversion a
+# by-value conversion delegates to, in a closure handed to for_each.  An iterable handed to `args` is decomposed with the
+# iterator algebra (arrays, chain, map, `flag.then_some(word)`).  Each word carries the conditions on fields of the
+# converted struct under which it is emitted (guards at every level of the call chain, substituted).
 
-    def is_text(o):
-        k = op_const(o) if isinstance(o, dict) else None
-        return k is not None and const_value(k) == text
+CMD = 'std::process::Command::'
+BOOL_THEN = ('then', 'then_some')
+UNKNOWN = '?'
 
-    for bi, b in enumerate(fn.blocks):
-        if b['cleanup']:
-            continue
-        hit = False
-        for s in b['s']:
-            if s[0] != '=':
+
+def _field_of_struct(v, fn):
+    for x in walk(v):
+        if x[0] == 'field' and x[1][0] == 'param' and x[1][1] == fn.path and x[1][2] == 0:
+            return x[2]
+    return None
+
+
+def _exact_field(v, fn):
+    v = strip(v)
+    if v[0] == 'field' and strip(v[1])[0] == 'param' and strip(v[1])[1] == fn.path and strip(v[1])[2] == 0:
+        return v[2]
+    return None
+
+
+def _is_bool_then(name):
+    return isinstance(name, str) and 'bool' in name and name.split('::')[-1] in BOOL_THEN
+
+
+def _program_order(effs):
+    """effects in execution order: at the first level of the call chains where two effects differ, the block that can
+    reach the other (and not vice versa) comes first, reverse post-order otherwise; stable (rows of an unrolled table)"""
+    import functools
+    cache = {}
+
+    def info(fn):
+        if fn.path not in cache:
+            rpo = fn._rpo()
+            cache[fn.path] = ({b: i for i, b in enumerate(rpo)}, {})
+        return cache[fn.path]
+
+    def levels(e):
+        return [l.call for l in e.chain] + [e.call]
+
+    def cmp(x, y):
+        for a, b in zip(levels(x), levels(y)):
+            if a is b:
                 continue
-            rv = s[2]
-            ops = [rv.get('o'), rv.get('a'), rv.get('b')] + list(rv.get('ops') or ())
-            hit = hit or any(is_text(o) for o in ops if o)
-        t = b['t']
-        if t['t'] == 'call':
-            hit = hit or any(is_text(a) for a in t.get('args', ()))
-        if hit:
-            out.append(bi)
-    return out
+            if a.fn is not b.fn or a.bb == b.bb:
+                return 0
+            pos, reach = info(a.fn)
+            for q in (a.bb, b.bb):
+                if q not in reach:
+                    reach[q] = a.fn.reachable(q)
+            ab, ba = b.bb in reach[a.bb], a.bb in reach[b.bb]
+            if ab != ba:
+                return -1 if ab else 1
+            return -1 if pos.get(a.bb, 10 ** 6) < pos.get(b.bb, 10 ** 6) else 1
+        return 0
+    return sorted(effs, key=functools.cmp_to_key(cmp))
 
 
-def flag_conditions(prog, sl, fn, flag):
-    """Under which conditions on boolean fields of the converted struct (parameter 0 of conversion fn) is the literal
-    argv word `flag` emitted?  -> list (one entry per occurrence of the literal) of [(field, outcome)], or None when an
-    occurrence sits in a place whose condition is not understood.  Understood: the literal in fn's own body under
-    `if self.field` guards, and inside a closure handed to `bool::then` on such a field (`field.then(|| "--flag")`)."""
-    from .lib.guards import conditions
-    res = []
+VEC_INIT_EMPTY = ('std::vec::Vec::<T>::new', 'std::vec::Vec::<T>::with_capacity')
+VEC_INIT_ARRAY = ('std::boxed::box_assume_init_into_vec_unsafe', 'std::slice::<impl [T]>::into_vec')
 
-    def field_of(v):
-        for x in walk(v):
-            if x[0] == 'field' and x[1][0] == 'param' and x[1][1] == fn.path and x[1][2] == 0:
-                return x[2]
+
+def _sink_kind(c):
+    """argv sinks: Command::new / arg / args, and the fillers of a word vector that is later handed to `args` whole"""
+    if c.indirect:
+        return None
+    for n in (c.res, c.decl):
+        if not n:
+            continue
+        if n in (CMD + 'new', CMD + 'arg', CMD + 'args'):
+            return 'CMD_' + n[len(CMD):].upper()
+        if n in ('std::vec::Vec::<T, A>::push', 'std::vec::Vec::<T>::push'):
+            return 'VEC_PUSH'
+        if n in ('std::vec::Vec::<T, A>::extend_from_slice', 'std::vec::Vec::<T, A>::append'):
+            return 'VEC_EXTEND'
+    if c.decl == 'std::iter::Extend::extend' and (c.res or '').startswith('<std::vec::Vec<'):
+        return 'VEC_EXTEND'
+    return None
+
+
+def _sink_effects(prog, sl):
+    from .lib.effects import Effects, Eff
+
+    class SinkEffects(Effects):
+        """Effects whose vocabulary is the argv sinks; `Extend::extend` is an iterator consumer for the library, so the
+        sinks are intercepted before the generic expansion (same local workaround as rules/C17_helpers.py)"""
+
+        def _expand_call1(self, fn, c, forall, mode, mapping, chain, stack, out):
+            k = _sink_kind(c)
+            if k is None:
+                return Effects._expand_call1(self, fn, c, forall, mode, mapping, chain, stack, out)
+            args = tuple(self.subst(self.slicer.operand(fn, a), mapping) for a in c.args)
+            ef = Eff(k, None, c, chain, mode == 'must', self.subst(forall, mapping) if forall is not None else None, args)
+            ef.mapping = mapping
+            out.append(ef)
+    return SinkEffects(prog, sl)
+
+
+def _through_moves(fn, pl, refs=True):
+    """local behind a place, following whole-local moves / copies / borrows"""
+    from .lib.mir import op_place
+    seen = set()
+    while pl is not None and len([p for p in pl[1:] if p != '*']) == 0 and pl[0] not in seen:
+        seen.add(pl[0])
+        defs = fn.whole_defs(pl[0])
+        if len(defs) == 1 and defs[0][0] == 'stmt':
+            rv = defs[0][3]
+            if rv['r'] == 'use' and op_place(rv['o']) is not None:
+                pl = op_place(rv['o'])
+                continue
+            if refs and rv['r'] == 'ref':
+                pl = rv['p']
+                continue
+        return pl[0]
+    return None
+
+
+def _vec_local(fn, operand):
+    """local of type Vec behind an operand (`&mut v`, `move v`, `&v`), or None"""
+    from .lib.mir import op_place
+    pl = op_place(operand)
+    if pl is None:
+        return None
+    m = _through_moves(fn, pl)
+    if m is None or m <= fn.argc:
+        return None
+    return m if fn.local_ty(m).startswith('std::vec::Vec<') else None
+
+
+def _derives(fn, local, box, depth=6):
+    """local is a pointer computed from the box local (the destination of the array literal of `vec![..]`)"""
+    from .lib.mir import op_place
+    while depth > 0:
+        depth -= 1
+        if local == box:
+            return True
+        defs = fn.whole_defs(local)
+        if len(defs) != 1 or defs[0][0] != 'stmt':
+            return False
+        rv = defs[0][3]
+        if rv['r'] in ('use', 'cast') and op_place(rv['o']) is not None:
+            local = op_place(rv['o'])[0]
+        elif rv['r'] in ('ref', 'rawptr', 'cfd'):
+            local = rv['p'][0]
+        else:
+            return False
+    return False
+
+
+def _vec_initial(sl, fn, m):
+    """values the vector local m starts with ([] for Vec::new(), the literal's elements for vec![..]), or None"""
+    from .lib.mir import op_place
+    defs = fn.whole_defs(m)
+    if len(defs) != 1:
+        return None
+    d = defs[0]
+    if d[0] == 'call':
+        c = d[3]
+        if c.indirect:
+            return None
+        if c.is_(*VEC_INIT_EMPTY):
+            return []
+        if c.is_(*VEC_INIT_ARRAY) and c.args:
+            v = strip(sl.operand(fn, c.args[0]))
+            if v[0] == 'array':
+                return list(v[1])
+            box = _through_moves(fn, op_place(c.args[0]), refs=False)
+            arrays = []
+            for b in fn.blocks:
+                for st in b['s']:
+                    if st[0] == '=' and len(st[1]) > 1 and st[2]['r'] == 'agg' and st[2].get('kind') == 'array' and _derives(fn, st[1][0], box):
+                        arrays.append(st[2])
+            if len(arrays) == 1:
+                return [sl.operand(fn, o) for o in arrays[0]['ops']]
+            return None
+    v = strip(sl.local(fn, m))
+    if v[0] == 'array':
+        return list(v[1])
+    return None
+
+
+def _vec_other_writers(fn, m):
+    """calls that take `&mut m` and are not push / extend: they may reorder or drop elements"""
+    from .lib.mir import op_place
+    bad = []
+    tmps = set()
+    for b in fn.blocks:
+        for st in b['s']:
+            if st[0] == '=' and st[2]['r'] == 'ref' and st[2].get('mut') and st[2]['p'][0] == m:
+                if len(st[1]) == 1 and [p for p in st[2]['p'][1:] if p != '*'] == []:
+                    tmps.add(st[1][0])
+                else:
+                    bad.append('a mutable borrow of part of the vector')
+    for c in fn.calls:
+        for ai, a in enumerate(c.args):
+            pl = op_place(a)
+            if pl and pl[0] in tmps:
+                if not (ai == 0 and _sink_kind(c) in ('VEC_PUSH', 'VEC_EXTEND')):
+                    bad.append(c.name or 'indirect call')
+    return bad
+
+
+def argv_model(prog, sl, fn):
+    """-> (program, [Item]) with one lib.cmdmodel.Item per argv word (elems has one entry, classified as lib.cmdmodel
+    does: ('const', s) | ('field', name, 'direct'|'fmt'|'elem'|'splat', template) | ('other', text)).
+    Item.conds = [(field, outcome)] on fields of the converted struct; a condition that is not a test of such a field is
+    kept as (UNKNOWN, text) — never dropped.  Item.loop = field iterated (one word per element), UNKNOWN for a loop over
+    something else.  Words collected in a Vec with push / extend and handed to `Command::args` whole appear at the place
+    of the hand-over; whatever cannot be read is an ('other', ..) word, so that absence of a word is only concluded from
+    a model without such entries."""
+    from .lib import iters
+    from .lib.cmdmodel import Item, classify
+    from .lib.effects import guards_of
+    from .lib.value import vstr
+    E = _sink_effects(prog, sl)
+    kinds = ('CMD_NEW', 'CMD_ARG', 'CMD_ARGS', 'VEC_PUSH', 'VEC_EXTEND')
+    effs = _program_order([e for e in E.expand(fn, 'may') if e.kind in kinds and e.call is not None])
+    program = None
+    items = []
+    vec_effs = {}
+    main = []
+    for e in effs:
+        if e.kind == 'CMD_NEW':
+            v = strip(e.args[0])
+            program = v[1] if v[0] == 'const' else vstr(v)
+        elif e.kind in ('VEC_PUSH', 'VEC_EXTEND'):
+            vec_effs.setdefault((e.call.fn.path, _vec_local(e.call.fn, e.call.args[0])), []).append(e)
+        else:
+            main.append(e)
+
+    def cls(v):
+        el = classify(fn, v)
+        if el[0] == 'other':
+            iv = sl.inline_deep(v)
+            if iv != v:
+                el = classify(fn, iv)
+        if el[0] == 'other':
+            # an owned copy of a literal (`String::from("--rm")`, `"--rm".to_string()`) is that literal
+            x = strip(v)
+            for _ in range(3):
+                if x[0] == 'call' and len(x[2]) == 1 and (x[1] or '').split('::')[-1] in _VIEW_CALLS:
+                    x = strip(x[2][0])
+            if x[0] == 'const' and isinstance(x[1], str):
+                el = ('const', x[1])
+        return el
+
+    def context(e):
+        conds, loop = [], None
+        for cd, views, subj in guards_of(E, e):
+            if cd.kind == 'bool':
+                hit = next(((_exact_field(v, fn), oc) for v, oc in views if _exact_field(v, fn) is not None), None)
+                conds.append(hit if hit is not None else (UNKNOWN, vstr(views[0][0])[:60]))
+            elif cd.kind == 'variant' and subj is not None:
+                s0 = strip(subj)
+                if s0[0] == 'call' and s0[1] == iters.IT + 'next':
+                    if 'Some' in cd.outcome:      # inside the loop; `None` = after it: not a condition
+                        loop = _field_of_struct(s0, fn) or UNKNOWN
+                    continue
+                fld = _exact_field(subj, fn)
+                conds.append((fld, sorted(cd.outcome)) if fld is not None and cd.enum == 'std::option::Option' else (UNKNOWN, vstr(subj)[:60]))
+            else:
+                conds.append((UNKNOWN, vstr(cd.value)[:60]))
+        if e.forall is not None and loop is None:
+            loop = _field_of_struct(e.forall, fn) or UNKNOWN
+        for c in [l.call for l in e.chain] + [e.call]:
+            if loop is None and c.fn.in_loop(c.bb) and E._unrollable(c.fn, c) is None:
+                loop = UNKNOWN
+        return conds, loop
+
+    def add(e, el, conds, loop):
+        cs = []
+        for c in conds:
+            if c not in cs and not (loop not in (None, UNKNOWN) and c == (loop, ['Some'])):
+                cs.append(c)
+        items.append(Item('arg' if e.kind in ('CMD_ARG', 'VEC_PUSH') else 'args', [el], cs, loop, e.call))
+
+    def contribute(e, pay, iterable):
+        conds, loop = context(e)
+        pay = strip(pay)
+        if not iterable:
+            add(e, cls(pay), conds, loop)
+            return
+        if pay[0] == 'array':
+            for x in pay[1]:
+                add(e, cls(x), conds, loop)
+            return
+        al = iters.alts(sl, pay)
+        for elem, fa, filtered in al:
+            extra, lp, el = [], loop, None
+            if fa is not None:
+                f0 = strip(fa)
+                if f0[0] == 'call' and _is_bool_then(f0[1]) and len(f0[2]) == 2:
+                    # `flag.then_some(word)` / `flag.then(|| word)` as an iterable: the word, iff the flag is set
+                    w = f0[2][1] if f0[1].endswith('then_some') else sl.apply_closure(f0[2][1], ())
+                    fld = _exact_field(f0[2][0], fn)
+                    extra.append((fld, True) if fld is not None else (UNKNOWN, vstr(f0[2][0])[:60]))
+                    el = cls(w) if (w is not None and canon_eq(elem, iters.elem_of(fa))) else ('other', vstr(elem)[:80])
+                else:
+                    fld = _field_of_struct(fa, fn)
+                    if fld is None:
+                        lp = UNKNOWN
+                    elif len(al) == 1 and not filtered and canon_eq(elem, iters.elem_of(fa)) and loop is None:
+                        el = cls(fa)      # the whole collection handed over as it is
+                        el = ('field', el[1], 'splat', None) if el[0] == 'field' else el
+                    else:
+                        lp = fld if loop is None else UNKNOWN
+            if filtered:
+                extra.append((UNKNOWN, 'filtered iteration'))
+            add(e, el if el is not None else cls(elem), conds + extra, lp)
+
+    spliced = set()
+    for e in main:
+        if len(e.args) < 2:
+            continue
+        if e.kind == 'CMD_ARG':
+            contribute(e, e.args[1], False)
+            continue
+        g = e.call.fn
+        m = _vec_local(g, e.call.args[1]) if len(e.call.args) > 1 else None
+        key = (g.path, m)
+        init = _vec_initial(sl, g, m) if m is not None else None
+        if m is not None and (key in vec_effs or init is not None):
+            # a vector filled with push / extend and handed over whole: its contributions, at this position
+            spliced.add(key)
+            mp = e.mapping or {}
+            if init is None:
+                items.append(Item('args', [('other', 'initial contents of the vector %s' % (g.local_name(m) or m))], [], None, e.call))
+            elif init:
+                contribute(e, ('array', tuple(E.subst(x, mp) for x in init)), True)
+            for wr in _vec_other_writers(g, m):
+                items.append(Item('args', [('other', 'the vector %s is also modified by %s' % (g.local_name(m) or m, wr))], [], None, e.call))
+            for pe in vec_effs.get(key, []):
+                if len(pe.args) > 1:
+                    contribute(pe, pe.args[1], pe.kind == 'VEC_EXTEND')
+            conds, loop = context(e)
+            if conds or loop:
+                items.append(Item('args', [('other', 'the vector is handed to Command::args conditionally')], conds, loop, e.call))
+            continue
+        contribute(e, e.args[1], True)
+    for key, es in vec_effs.items():
+        if key not in spliced:
+            ty = prog.fns[key[0]].local_ty(key[1]) if key[1] is not None else 'String'
+            if any(t in ty for t in ('String', 'str', 'OsStr', 'Path')):
+                items.append(Item('args', [('other', 'words pushed onto a vector that is not handed to Command::args as a whole')], [], None, es[0].call))
+    return program, items
+
+
+def canon_eq(a, b):
+    from .lib.value import canon
+    return canon(a) == canon(b)
+
+
+def word_conditions(model, word):
+    """conditions under which the literal argv word is emitted, one entry per occurrence in the argv model: [[(field,
+    outcome)..]..]; None when an occurrence is emitted under a condition / in a loop that is not understood, or when the
+    word does not occur but part of the argv is opaque (it may hide there)"""
+    if model is None:
+        return None
+    _, items = model
+    occ = [it for it in items if it.elems == [('const', word)]]
+    if any(it.loop is not None or any(c[0] == UNKNOWN for c in it.conds) for it in occ):
+        return None
+    if not occ and any(it.elems[0][0] == 'other' for it in items):
+        return None
+    return [it.conds for it in occ]
+
+
+# ---- how many random characters a string built piecewise carries ------------------------------------------------------
+
+def _range_len(v):
+    v = strip(v)
+    while v[0] == 'call' and v[2] and v[1].split('::')[-1] in ('into_iter', 'iter', 'by_ref'):
+        v = strip(v[2][0])
+    if v[0] == 'agg' and (v[1] or '') in ('std::ops::Range', 'std::ops::RangeInclusive'):
+        fl = {k: strip(fv) for k, fv in v[3]}
+        a, b = fl.get('start'), fl.get('end')
+        if a and b and a[0] == 'const' and b[0] == 'const' and isinstance(a[1], int) and isinstance(b[1], int):
+            return max(0, b[1] - a[1] + (1 if v[1].endswith('Inclusive') else 0))
+    if v[0] == 'array':
+        return len(v[1])
+    return None
+
+
+def pushed_draws(prog, sl, fn, rv, is_source):
+    """Lower bound on the number of values from a random source (is_source(call name)) appended to the string value rv
+    of fn when it is built with push / push_str (a ('concat', ..) value): a draw made in straight-line code counts once,
+    a draw made in a `for` loop over a literal range / array counts once per iteration — provided the loop can only be
+    left by exhaustion and the draw and its push happen on every iteration.  None when that cannot be established."""
+    from .lib.effects import find_loops
+    from .lib.value import concat_parts, canon
+    rv = strip(rv)
+    if rv[0] != 'concat':
+        return None
+    loops = find_loops(fn, sl)
+    total = 0
+    for part in concat_parts(rv):
+        for x in walk(part):
+            if not (x[0] == 'call' and is_source(x[1])):
+                continue
+            if len(x) < 4 or not x[3] or x[3][0] != fn.path:
+                return None
+            bb = x[3][1]
+            around = [L for L in loops if bb in L.body]
+            if not around:
+                total += 1
+                continue
+            if len(around) != 1:
+                return None
+            L = around[0]
+            n = _range_len(L.collection) if L.collection is not None else None
+            exits = [b for b in L.exit_bb if fn.blocks[b]['t']['t'] != 'unreachable']
+            if n is None or getattr(L, 'exhaust', None) is None or exits != [L.exhaust[1]]:
+                return None
+            every = lambda b: all(fn.dominates(b, l) or b == l for l in L.latches)
+            pushes = [c for c in fn.calls if c.bb in L.body and not c.indirect and (c.name or '').startswith('std::string::String::push')
+                      and len(c.args) > 1 and any(canon(y) == canon(x) for y in walk(sl.operand(fn, c.args[1])))]
+            if not (every(bb) and any(every(c.bb) for c in pushes)):
+                return None
+            total += n
+    return total
+
+
+# ---- names as functions of the guard -----------------------------------------------------------------------------------
+# "The guard removes what was created under its names" does not depend on how the guard stores the names: a name is a
+# *term over the guard* — a field of it, or a pure string function of its fields (`format!("{}.build-cache", g.image)`,
+# also behind a private accessor method, which is inlined).  Two places use the same name when their terms are equal;
+# what a term denotes for a concrete guard is obtained by evaluating it on the literal that constructs the guard.
+
+GUARD = ('param', '<guard>', 0, 'guard')
+_VIEW_CALLS = ('clone', 'to_string', 'to_owned', 'into', 'as_str', 'as_ref', 'borrow', 'deref', 'from', 'as_deref', 'to_str', 'as_mut_str')
+
+
+def guard_term(sl, v, is_root):
+    """canonical term of value v over the guard (the value recognised by is_root), or None when v is not a pure function
+    of fields of the guard (mentions no field of it, or anything else that varies: other parameters, calls)"""
+    from .lib.value import canon
+    ok = [True]
+    seen = [False]
+
+    def norm(x):
+        if not isinstance(x, tuple) or not x:
+            return x
+        if not isinstance(x[0], str):
+            return tuple(norm(y) for y in x)
+        while x[0] in ('unwrap', 'updated'):
+            x = x[1]
+        if x[0] == 'call' and len(x[2]) == 1 and (x[1] or '').split('::')[-1] in _VIEW_CALLS:
+            return norm(x[2][0])
+        if is_root(x):
+            return GUARD
+        if x[0] == 'field':
+            b = norm(x[1])
+            if b == GUARD:
+                seen[0] = True
+            return ('field', b, x[2])
+        if x[0] == 'const':
+            return x
+        if x[0] in ('fmt', 'concat'):
+            return tuple(norm(y) if isinstance(y, tuple) else y for y in x)
+        ok[0] = False
+        return x
+
+    t = norm(sl.inline_deep(v))
+    if not ok[0] or not seen[0] or t == GUARD:
+        return None
+    # every mention of the guard is a field of it
+    bare = [0]
+
+    def count(x, parent_field):
+        if x == GUARD:
+            if not parent_field:
+                bare[0] += 1
+            return
+        if isinstance(x, tuple):
+            for i, y in enumerate(x):
+                count(y, bool(x) and x[0] == 'field' and i == 1)
+    count(t, False)
+    return canon(t) if not bare[0] else None
+
+
+def term_fields(t):
+    return sorted({x[2] for x in walk(t) if x[0] == 'field' and x[1] == GUARD})
+
+
+def eval_term(t, agg):
+    """the term's value for the guard constructed by the struct literal `agg`; None when a field it reads is not there"""
+    if not (isinstance(agg, tuple) and agg and agg[0] == 'agg'):
+        return None
+    fl = dict(agg[3])
+    if any(n not in fl for n in term_fields(t)):
         return None
 
-    def conds_at(bb):
-        out = []
-        for cd in conditions(fn, bb, sl):
-            if cd.kind != 'bool':
-                continue
-            fld = field_of(cd.subject if cd.subject is not None else cd.value)
-            if fld is None:
-                return None
-            out.append((fld, cd.outcome))
-        return out
+    def ev(x):
+        if isinstance(x, tuple) and x:
+            if x[0] == 'field' and x[1] == GUARD:
+                return fl[x[2]]
+            return tuple(ev(y) if isinstance(y, tuple) else y for y in x)
+        return x
+    return ev(t)
 
-    for bb in _const_str_blocks(fn, flag):
-        c = conds_at(bb)
-        if c is None:
-            return None
-        res.append(c)
-    for cl in prog.closures_of(fn):
-        if not _const_str_blocks(cl, flag):
-            continue
-        sites = [c for c in fn.calls if any(g.path == cl.path for g in prog.fn_item_args(c))]
-        if len(sites) != 1:
-            return None
-        c = sites[0]
-        nm = c.name or ''
-        if not (nm.split('::')[-1] == 'then' and 'bool' in nm and c.args):
-            return None
-        fld = field_of(sl.operand(fn, c.args[0]))
-        outer = conds_at(c.bb)
-        if fld is None or outer is None:
-            return None
-        res.append(outer + [(fld, True)])
-    return res
+
+def term_label(t):
+    from .lib.value import vstr
+    if t is None:
+        return '?'
+    if t[0] == 'field' and t[1] == GUARD:
+        return t[2]
+    return vstr(t)[:80]
